@@ -59,6 +59,7 @@ type StoreOp struct {
 	Val       int    `json:"v,omitempty"`
 	WrongType bool   `json:"wt,omitempty"`
 	Veto      bool   `json:"veto,omitempty"`
+	CommitErr bool   `json:"commit_err,omitempty"` // the commit of this mutation is refused (disk error)
 }
 
 // TxnSpec is one transaction of a task.
@@ -135,6 +136,9 @@ func (StoreLinScenario) GenCase(r *rand.Rand, prop string) interface{} {
 				}
 				if c.Backend == "badger" && (op.Kind == "create" || op.Kind == "update" || op.Kind == "delete") && chance(r, 8) {
 					op.Veto = true
+				}
+				if c.Backend == "badger" && (op.Kind == "create" || op.Kind == "update" || op.Kind == "delete") && chance(r, 6) {
+					op.CommitErr = true
 				}
 				tx.Ops = append(tx.Ops, op)
 			}
@@ -232,6 +236,10 @@ type storeRun struct {
 	ops     []*sop
 	changes []changeRec
 	veto    map[string]bool
+	// injected commit errors, by task name
+	failCommit  map[string]bool
+	commitFired map[string]bool
+	commitErrs  int
 	// harness transaction table (mockstore regime)
 	openW string
 	openR int
@@ -251,7 +259,7 @@ func (sr *storeRun) mkVal(op StoreOp) interface{} {
 func (StoreLinScenario) Execute(sim *sched.Sim, ci interface{}, prop string, race bool) *Outcome {
 	c := ci.(*StoreCase)
 	h := NewHist(sim)
-	sr := &storeRun{sim: sim, c: c, h: h, veto: map[string]bool{}}
+	sr := &storeRun{sim: sim, c: c, h: h, veto: map[string]bool{}, failCommit: map[string]bool{}, commitFired: map[string]bool{}}
 	sim.Optional = map[string]bool{}
 	for _, p := range c.Optional {
 		sim.Optional[p] = true
@@ -284,7 +292,21 @@ func (StoreLinScenario) Execute(sim *sched.Sim, ci interface{}, prop string, rac
 		badger.VerifHook = sim.Yield
 		keylock.Hook = sim.Yield
 		taskqueue.Hook = sim.Yield
-		defer func() { badgerstore.VerifHook = nil; badger.VerifHook = nil; keylock.Hook = nil; taskqueue.Hook = nil }()
+		badger.VerifCommitFault = func() error {
+			if t := sim.Current(); t != nil && sr.failCommit[t.Name] {
+				sr.failCommit[t.Name] = false
+				sr.commitFired[t.Name] = true
+				return errors.New("simulated disk error at commit")
+			}
+			return nil
+		}
+		defer func() {
+			badgerstore.VerifHook = nil
+			badger.VerifHook = nil
+			badger.VerifCommitFault = nil
+			keylock.Hook = nil
+			taskqueue.Hook = nil
+		}()
 	}
 	st.OnChange(func(id string, before, after interface{}) {
 		name := "?"
@@ -372,7 +394,8 @@ func (StoreLinScenario) Execute(sim *sched.Sim, ci interface{}, prop string, rac
 			wrong++
 		}
 	}
-	out.Faults["before-change-veto"] = vetoes
+	out.Faults["before-change-veto"] = vetoes - sr.commitErrs
+	out.Faults["commit-error"] = sr.commitErrs
 	out.Faults["wrong-type-value"] = wrong
 	out.Sample = map[string]interface{}{"backend": c.Backend, "typed": c.Typed, "prefix": c.Prefix, "tasks": len(c.Tasks), "calls": len(sr.ops)}
 	ops := sr.ops
@@ -462,6 +485,9 @@ func (sr *storeRun) runTxn(st store.Store, ti, txn int, name string, tx TxnSpec)
 		if op.Veto {
 			sr.veto[name] = true
 		}
+		if op.CommitErr {
+			sr.failCommit[name] = true
+		}
 		o.Invoke = sim.Seq()
 		var err error
 		switch op.Kind {
@@ -482,6 +508,14 @@ func (sr *storeRun) runTxn(st store.Store, ti, txn int, name string, tx TxnSpec)
 		}
 		o.Return = sim.Seq()
 		sr.veto[name] = false
+		sr.failCommit[name] = false
+		if sr.commitFired[name] {
+			// the commit was refused: like a veto, the call must fail and
+			// leave no trace
+			sr.commitFired[name] = false
+			o.In.Veto = true
+			sr.commitErrs++
+		}
 		o.OK = err == nil
 		if err != nil {
 			o.ErrText = err.Error()
